@@ -5,30 +5,42 @@ from pyvc import spec as S
 RED = "dask_array/reductions/_reduction.py"
 
 
-@contract(f"{RED}::PartialReduce.chunks", spec="r1-keepdims", props=["C18", "C03"])
-class partial_reduce_chunks:
-    """one partial-reduction layer over a reduced axis with group size k: the axis gets ceil(n / k) blocks of size 1
-    (n input blocks); an axis that is not reduced keeps its chunks"""
-    params = {"self": "obj:PR"}
-    result = "tup:seq"
-    fields = {"PR": {"array": "obj:Arr", "split_every": "map:int", "keepdims": "const"}, "Arr": {"chunks": "tup:seq", "ndim": "const"}}
-    consts = {"self.keepdims": True, "self.array.ndim": 1}
+def _prc(rank):
+    @contract(f"{RED}::PartialReduce.chunks", spec=f"r{rank}-keepdims", props=["C18", "C03"])
+    class partial_reduce_chunks:
+        """one partial-reduction layer: every reduced axis with group size k gets ceil(n / k) blocks of size 1 (n input
+        blocks); an axis that is not reduced keeps its chunks"""
+        params = {"self": "obj:PR"}
+        result = "tup:" + ",".join(["seq"] * rank)
+        fields = {"PR": {"array": "obj:Arr", "split_every": "map:int", "keepdims": "const"},
+                  "Arr": {"chunks": "tup:" + ",".join(["seq"] * rank), "ndim": "const"}}
+        consts = {"self.keepdims": True, "self.array.ndim": rank}
 
-    def requires(self):
-        se = self.get("split_every")
-        return S.Implies(S.mhas(se, 0), S.as_int(S.mget(se, 0)) >= 1)
+        def requires(self):
+            se = self.get("split_every")
+            return S.And([S.Implies(S.mhas(se, a), S.as_int(S.mget(se, a)) >= 1) for a in range(rank)])
 
-    def ensures(result, self):
-        se = self.get("split_every")
-        c = S.item(self.get("array").get("chunks"), 0)
-        r = S.item(result, 0)
-        k = S.as_int(S.mget(se, 0))
-        reduced = S.mhas(se, 0)
-        return {
-            "reduced-axis-has-ceil-n-over-k-unit-blocks": S.Implies(reduced, S.And(S.slen(r) == S.ceildiv(S.slen(c), k),
-                                                                                  S.forall_idx(r, lambda j: S.at(r, j) == 1))),
-            "other-axis-unchanged": S.Implies(S.Not(reduced), S.seq_equal(r, c)),
-        }
+        def ensures(result, self):
+            se = self.get("split_every")
+            out = {}
+            for a in range(rank):
+                c = S.item(self.get("array").get("chunks"), a)
+                r = S.item(result, a)
+                k = S.as_int(S.mget(se, a))
+                reduced = S.mhas(se, a)
+                sfx = "" if rank == 1 else f"-axis{a}"
+                out["reduced-axis-has-ceil-n-over-k-unit-blocks" + sfx] = S.Implies(
+                    reduced, S.And(S.slen(r) == S.ceildiv(S.slen(c), k), S.forall_idx(r, lambda j, r=r: S.at(r, j) == 1)))
+                out["other-axis-unchanged" + sfx] = S.Implies(S.Not(reduced), S.seq_equal(r, c))
+            return out
+
+    partial_reduce_chunks.__name__ = f"partial_reduce_chunks_r{rank}"
+    return partial_reduce_chunks
+
+
+PRC1 = _prc(1)
+PRC2 = _prc(2)
+PRC3 = _prc(3)
 
 
 @contract(f"{RED}::partition_all", spec="model", props=["C18"])
@@ -61,16 +73,8 @@ class partition_all_model:
 # the cascade: depth - 1 partial layers and one aggregate layer leave ONE block on the reduced axis
 # ---------------------------------------------------------------------------
 def _pw():
-    import z3
-    return z3.Function("group_size_power", z3.IntSort(), z3.IntSort())
-
-
-def _power_axioms(k):
-    """group_size_power(j) = k ** j, given as a recurrence (ghost function)"""
-    import z3
-    pw = _pw()
-    j = z3.Int("j!pw")
-    return z3.And(pw(0) == 1, z3.ForAll([j], z3.Implies(j >= 0, z3.And(pw(j + 1) == pw(j) * k, pw(j) >= 1)), patterns=[pw(j)]))
+    from pyvc import lemmas as L
+    return L.power_fn()
 
 
 def _ext_opaque(ex, st, args, kwargs, node):
@@ -78,70 +82,134 @@ def _ext_opaque(ex, st, args, kwargs, node):
     return ex.fresh_value("obj:Fn", "fn")
 
 
-def _ext_partial_reduce(ex, st, args, kwargs, node):
-    """PartialReduce(x, func, split_every, keepdims=True, ...): a node whose reduced axis has ceil(n / k) blocks -- the
-    postcondition of PartialReduce.chunks[r1-keepdims], proved as its own unit"""
-    import z3
-    x = args[0]
-    se = args[2]
-    o = ex.fresh_value("obj:Arr", "layer")
-    nb_in = S.item(ex.obj_field(x, "numblocks", node), 0)
-    nb_out = S.item(ex.obj_field(o, "numblocks", node), 0)
-    k = S.as_int(se.get(z3.IntVal(0)))
-    st.pc.append(nb_out == S.ceildiv(nb_in, k))
-    return o
+def _mk_ext_partial_reduce(focus):
+    def _ext_partial_reduce(ex, st, args, kwargs, node):
+        """PartialReduce(x, func, split_every, keepdims=True, ...): a node whose reduced axes have ceil(n / k) blocks and
+        whose other axes keep their block count -- the postcondition of PartialReduce.chunks[rN-keepdims], proved as its
+        own unit.  (A unit that studies one reduced axis uses the facts about that axis and the unreduced ones only.)"""
+        import z3
+        x = args[0]
+        se = args[2]
+        o = ex.fresh_value("obj:Arr", "layer")
+        nbi = ex.obj_field(x, "numblocks", node)
+        nbo = ex.obj_field(o, "numblocks", node)
+        for a in range(len(nbi.items)):
+            nb_in, nb_out = S.item(nbi, a), S.item(nbo, a)
+            k = S.as_int(se.get(z3.IntVal(a)))
+            has = z3.Select(se.has, z3.IntVal(a))
+            if focus is None or a == focus:
+                st.pc.append(z3.If(has, S._t(nb_out == S.ceildiv(nb_in, k)), S._t(nb_out == nb_in)))
+            else:
+                st.pc.append(z3.Implies(z3.Not(has), S._t(nb_out == nb_in)))
+        return o
+    return _ext_partial_reduce
 
 
-def _assume_depth(ex, st, val):
-    """the float computation ceil(log(n, k)) yields a depth with k ** max(1, depth) >= n (validated for n <= 2000 /
-    200000 blocks and 2 <= k <= 16 by the bounded contract _build_tree_reduce_expr[depth])"""
-    import z3
-    pw = _pw()
-    n = S.as_int(st.env["n"])
-    v = S.as_int(val)
-    k = S.as_int(st.env["split_every"].get(z3.IntVal(0)))
-    st.pc.append(_power_axioms(k))  # definition of the ghost function k ** j (a definitional extension, not an assumption)
-    st.pc.append(pw(z3.If(v > 1, v, 1)) >= n)
-
-
-@contract(f"{RED}::_build_tree_reduce_expr", spec="r1-keepdims", props=["C18"])
-class build_tree_reduce:
-    """a reduction over the one axis of a rank-1 array with n >= 1 blocks (integer split_every; the group size k >= 2 comes
-    from _normalize_split_every's own contract, used modularly): after the depth - 1
-    partial layers and the aggregate layer the reduced axis has exactly one block -- so the tree's shape (fan-in, depth)
-    never leaves partial results uncombined.  Uses the nested-ceiling lemma ceil(ceil(n/a)/b) = ceil(n/(a*b))."""
-    params = {"x": "obj:Arr", "aggregate": "obj:Fn", "axis": "tup:int", "keepdims": "const", "dtype": "obj:Fn", "split_every": "int",
-              "combine": "obj:Fn", "name": "obj:Fn", "concatenate": "const", "reduced_meta": "obj:Fn"}
-    consts = {"keepdims": True, "concatenate": False}
-    fields = {"Arr": {"numblocks": "tup:int"}, "Fn": {}}
-    result = None
-    externals = {"partial": _ext_opaque, "compose": _ext_opaque,
-                 "funcname": _ext_opaque, "PartialReduce": _ext_partial_reduce}
-    havoc = {"math.ceil(math.log(n, split_every[i]))": "int",
-             "combine or aggregate": "obj:Fn",
-             "(name or funcname(combine or aggregate)) + '-partial'": "obj:Fn",
-             "(name or funcname(aggregate)) + '-aggregate'": "obj:Fn"}
-    havoc_assume = {"math.ceil(math.log(n, split_every[i]))": _assume_depth}
-
-    def requires(x, aggregate, axis, keepdims, dtype, split_every, combine, name, concatenate, reduced_meta):
-        return S.And(S.item(x.get("numblocks"), 0) >= 1, S.item(axis, 0) == 0)
-
-    def ensures(result, x, aggregate, axis, keepdims, dtype, split_every, combine, name, concatenate, reduced_meta, env=None, calls=None):
-        return {"one-block-on-the-reduced-axis": S.item(result.get("numblocks"), 0) == 1}
-
-    def _inv(v, v0):
+def _mk_assume_depth(focus):
+    def _assume_depth(ex, st, val):
+        """the float computation ceil(log(n, k)) yields a depth with k ** max(1, depth) >= n (validated for n <= 2000 /
+        200000 blocks and 2 <= k <= 16 by the bounded contract _build_tree_reduce_expr[depth])"""
+        import z3
+        from pyvc import lemmas as L
         pw = _pw()
-        n0 = S.item(v0.x.get("numblocks"), 0)
-        k = S.as_int(v.split_every.get(S._i(0)))
-        return {"blocks-after-it-layers": S.item(v.x.get("numblocks"), 0) == S.ceildiv(n0, pw(v.it)),
-                "depth": S.And(v.depth >= 1, pw(v.depth) >= n0)}
+        i = z3.simplify(S.as_int(st.env["i"]))
+        if focus is not None and not (z3.is_int_value(i) and i.as_long() == focus):
+            return  # a unit that studies one reduced axis uses the assumption for that axis only
+        n = S.as_int(st.env["n"])
+        v = S.as_int(val)
+        k = S.as_int(st.env["split_every"].get(S.as_int(st.env["i"])))
+        st.pc.append(L.power_def(k))  # definition of the ghost function k ** j (a definitional extension, not an assumption)
+        m = z3.If(v > 1, v, 1)
+        st.pc.append(z3.Implies(k >= 1, pw(k, m) >= n))  # the assumption (A3)
+        st.pc.append(L.power_above(k, m, n))  # lemma, proved once per run by the induction schema (pyvc/lemmas.py)
+        if "power_above" not in ex.lemmas_used:
+            ex.lemmas_used.append("power_above")
+    return _assume_depth
 
-    def _hints(h, e):
-        pw = _pw()
-        n0 = S.item(h.x0.get("numblocks"), 0) if False else None
-        return {}
 
-    loops = {"for#2": Loop(invariant=_inv)}
+def _btr(rank, axes, focus=None):
+    spec = f"r{rank}-keepdims" if rank == 1 else f"r{rank}-axes{''.join(map(str, axes))}-keepdims"
+    if focus is not None:
+        spec += f"-axis{focus}"
+    studied = [a for a in axes if focus is None or a == focus]
+
+    @contract(f"{RED}::_build_tree_reduce_expr", spec=spec, props=["C18"])
+    class build_tree_reduce:
+        """a reduction over the axes `axes` of a rank-N array whose reduced axes have n_a >= 1 blocks (integer split_every;
+        the group sizes k_a >= 2 come from _normalize_split_every's own contract, used modularly): after the depth - 1 partial
+        layers and the aggregate layer every reduced axis has exactly one block and every other axis keeps its block count --
+        so the tree's shape (fan-in, depth) never leaves partial results uncombined.  Uses the nested-ceiling lemma
+        ceil(ceil(n/a)/b) = ceil(n/(a*b))."""
+        params = {"x": "obj:Arr", "aggregate": "obj:Fn", "axis": "tup:" + ",".join(["int"] * len(axes)), "keepdims": "const",
+                  "dtype": "obj:Fn", "split_every": "int", "combine": "obj:Fn", "name": "obj:Fn", "concatenate": "const",
+                  "reduced_meta": "obj:Fn"}
+        consts = {"keepdims": True, "concatenate": False}
+        fields = {"Arr": {"numblocks": "tup:" + ",".join(["int"] * rank)}, "Fn": {}}
+        result = None
+        externals = {"partial": _ext_opaque, "compose": _ext_opaque,
+                     "funcname": _ext_opaque, "PartialReduce": _mk_ext_partial_reduce(focus)}
+        havoc = {"math.ceil(math.log(n, split_every[i]))": "int",
+                 "combine or aggregate": "obj:Fn",
+                 "(name or funcname(combine or aggregate)) + '-partial'": "obj:Fn",
+                 "(name or funcname(aggregate)) + '-aggregate'": "obj:Fn"}
+        havoc_assume = {"math.ceil(math.log(n, split_every[i]))": _mk_assume_depth(focus)}
+
+        def requires(x, aggregate, axis, keepdims, dtype, split_every, combine, name, concatenate, reduced_meta):
+            return S.And([S.item(x.get("numblocks"), a) >= 1 for a in range(rank)]
+                         + [S.item(axis, i) == a for i, a in enumerate(axes)])
+
+        def ensures(result, x, aggregate, axis, keepdims, dtype, split_every, combine, name, concatenate, reduced_meta, env=None, calls=None):
+            out = {}
+            for a in range(rank):
+                if a in axes:
+                    if a in studied:
+                        out["one-block-on-the-reduced-axis" + ("" if rank == 1 else f"-{a}")] = S.item(result.get("numblocks"), a) == 1
+                else:
+                    out[f"axis-{a}-not-reduced-keeps-its-blocks"] = S.item(result.get("numblocks"), a) == S.item(x.get("numblocks"), a)
+            return out
+
+        def _inv(v, v0):
+            pw = _pw()
+            out = {"depth-positive": v.depth >= 1}
+            for a in range(rank):
+                n0 = S.item(v0.x.get("numblocks"), a)
+                if a in axes and a not in studied:
+                    continue
+                if a in axes:
+                    k = S.as_int(v.split_every.get(S._i(a)))
+                    out[f"blocks-after-it-layers-{a}"] = S.item(v.x.get("numblocks"), a) == S.ceildiv(n0, pw(k, v.it))
+                    out[f"depth-{a}"] = pw(k, v.depth) >= n0
+                else:
+                    out[f"untouched-{a}"] = S.item(v.x.get("numblocks"), a) == n0
+            return out
+
+        def _hints(h, e, v0):
+            # proof script for one more layer: the recurrence k**(it+1) = k**it * k at this iteration, then the
+            # nested-ceiling lemma ceil(ceil(n / k**it) / k) = ceil(n / (k**it * k))
+            pw = _pw()
+            out = {}
+            for a in studied:
+                k = S.as_int(h.split_every.get(S._i(a)))
+                n0 = S.item(v0.x.get("numblocks"), a)
+                out[f"recurrence-{a}"] = S.And(pw(k, h.it + 1) == pw(k, h.it) * k, pw(k, h.it) >= 1)
+                out[f"nested-ceil-{a}"] = ("lemma", "nested_ceil", n0, pw(k, h.it), k)
+                out[f"layer-{a}"] = S.item(e.x.get("numblocks"), a) == S.ceildiv(S.ceildiv(n0, pw(k, h.it)), k)
+                out[f"layer-flat-{a}"] = S.item(e.x.get("numblocks"), a) == S.ceildiv(n0, pw(k, h.it) * k)
+            return out
+
+        loops = {"for#2": Loop(invariant=_inv, hints=_hints)}
+
+    build_tree_reduce.__name__ = "build_tree_reduce_" + spec.replace("-", "_")
+    return build_tree_reduce
+
+
+BTR1 = _btr(1, (0,))
+BTR2a = _btr(2, (0,))
+BTR2b = _btr(2, (1,))
+# two reduced axes: one unit per reduced axis (each uses the layer facts and the depth assumption of its own axis only;
+# with both in one query the two nonlinear power/ceiling chains together exhaust every solver's budget)
+BTR2c = _btr(2, (0, 1), focus=0)
+BTR2d = _btr(2, (0, 1), focus=1)
 
 
 def _ext_config_get(ex, st, args, kwargs, node):
@@ -149,12 +217,13 @@ def _ext_config_get(ex, st, args, kwargs, node):
     return ex.fresh_value("int", "config")
 
 
-def _nse(spec, se_type):
+def _nse(spec, se_type, naxes=1):
     @contract(f"{RED}::_normalize_split_every", spec=spec, props=["C18"])
     class normalize_split_every:
         """the canonical per-axis form: every reduced axis gets a group size of at least 2 (a fan-in of 1 would never
-        reduce the number of blocks), whether split_every was an integer or a per-axis dict"""
-        params = {"split_every": se_type, "axis": "tup:int"}
+        reduce the number of blocks), whether split_every was an integer or a per-axis dict; no other axis gets an entry"""
+        params = {"split_every": se_type, "axis": "tup:" + ",".join(["int"] * naxes)}
+        ghosts = {"q": "int"}
         result = "map:int"
         externals = {"config.get": _ext_config_get}
         havoc = {"split_every ** (1 / (len(axis) or 1))": "int"} if se_type == "int" else {"split_every or config.get('split_every', 16)": "map:int"}
@@ -163,9 +232,23 @@ def _nse(spec, se_type):
         def requires(split_every, axis):
             return True
 
-        def ensures(result, split_every, axis):
-            a0 = S.item(axis, 0)
-            return {"every-reduced-axis-has-fan-in-at-least-2": S.And(S.mhas(result, a0), S.as_int(S.mget(result, a0)) >= 2)}
+        def call_patterns(result, split_every, axis, q):
+            # the quantified clause is instantiated wherever the caller asks whether some axis has an entry
+            import z3
+            return {"no-entry-for-other-axes": [z3.Select(result.has, q)]}
+
+        def ensures(result, split_every, axis, q):
+            out = {}
+            for i in range(naxes):
+                a = S.item(axis, i)
+                out["every-reduced-axis-has-fan-in-at-least-2" + ("" if naxes == 1 else f"-{i}")] = S.And(
+                    S.mhas(result, a), S.as_int(S.mget(result, a)) >= 2)
+            out["no-entry-for-other-axes"] = S.Implies(S.And([q != S.item(axis, i) for i in range(naxes)]), S.Not(S.mhas(result, q)))
+            # the same fact as ground instances for the first few axis numbers (what callers of rank <= 4 ask about): these
+            # take part in the engine's quantifier-free path pruning
+            for r in range(4):
+                out[f"axis-{r}-has-an-entry-iff-it-is-reduced"] = S.mhas(result, r) == S.Or([S.item(axis, i) == r for i in range(naxes)])
+            return out
 
     normalize_split_every.__name__ = "normalize_split_every_" + spec.replace("-", "_")
     return normalize_split_every
@@ -173,3 +256,5 @@ def _nse(spec, se_type):
 
 NSE1 = _nse("int-r1", "int")
 NSE2 = _nse("dict-r1", "map:int")
+NSE3 = _nse("int-2axes", "int", 2)
+NSE4 = _nse("dict-2axes", "map:int", 2)
